@@ -82,9 +82,13 @@ Next == \/ /\ chunk = 0 /\ chunk' \in 1..Chunks /\ row' = 0
            /\ UNCHANGED chunk
 Spec == Init /\ [][Next]_vars
 
-\* Known finding (findings.d/C20.json, ini-file-read-as-toml): the composite parser tries TOML first, so a
-\* pydoctor.ini whose text happens to be valid TOML is read with TOML's rules, not with the INI/Python ones.
-KF_IniReadAsToml(r) == r.fmt = "ini" /\ r.tv /\ r.err = "" /\ r.back # r.s
+\* Known findings (findings.d/C20.json).
+\* ini-file-read-as-toml: the composite parser tries TOML first, so a pydoctor.ini whose text happens to be valid
+\* TOML is read with TOML's rules (no escapes in '...', `x # y` is a comment, [..] a list), not the INI/Python ones.
+KF_IniReadAsToml(r) == r.fmt = "ini" /\ r.tv /\ r.q \in {"single", "plain"} /\ (r.err # "" \/ r.back # r.s)
+\* toml-leading-escaped-quote: the `toml` package reads "\"" and "\"\"..." back as the empty string.
+KF_TomlLeadingQuote(r) == /\ r.tv /\ r.q \in {"basic", "double"} /\ r.err = "" /\ r.back = <<>>
+                          /\ (r.s = <<DQ>> \/ (Len(r.s) >= 2 /\ r.s[1] = DQ /\ r.s[2] = DQ))
 
 Report(i) ==
   LET r == Rows[i]
@@ -92,7 +96,7 @@ Report(i) ==
     [i |-> i, s |-> r.s, fmt |-> r.fmt, q |-> r.q, w |-> r.w, back |-> r.back, err |-> r.err, tv |-> r.tv,
      written_ok |-> Applicable(r.s, st) /\ r.w = Encode(r.s, st),
      identity   |-> r.err = "" /\ r.back = r.s,
-     kf         |-> KF_IniReadAsToml(r),
+     kf         |-> KF_IniReadAsToml(r) \/ KF_TomlLeadingQuote(r),
      lossless   |-> Decode(Encode(r.s, st), st) = r.s]
 
 Emit == row > 0 =>
